@@ -62,36 +62,18 @@ Fixpoint item_has_out (d : nat) (it : item) : bool :=
   end.
 Definition has_out (d : nat) (l : list item) : bool := existsb (item_has_out d) l.
 
-(* is the first use of d in walk order an input use? *)
-Fixpoint first_use_item (d : nat) (it : item) : option bool :=
-  match it with
-  | ILoop _ body => (fix go (l : list item) : option bool :=
-                       match l with
-                       | [] => None
-                       | x :: r => match first_use_item d x with Some b => Some b | None => go r end
-                       end) body
-  | _ => match item_flags d it with Some (i, _) => Some i | None => None end
-  end.
-Fixpoint first_use (d : nat) (l : list item) : option bool :=
-  match l with
-  | [] => None
-  | x :: r => match first_use_item d x with Some b => Some b | None => first_use d r end
-  end.
-Definition next_in (d : nat) (r : list item) (nxt : bool) : bool :=
-  match first_use d r with Some b => b | None => nxt end.
-
-(* copy-in before the first use as input (walk order); copy-out after the last use as output, and
-   (repair of F22) also after the last output use that precedes the first input use.
-   seen = an input use has already been found; later = an output use follows outside this item;
-   nxt = the next use after this item (in the continuation) is an input use *)
-Fixpoint ins_item (d s0 : nat) (seen later nxt : bool) (it : item) : list item * bool :=
+(* copy-in before the FIRST use in walk order when that use is an input use (a first use that only
+   writes makes the new buffer current: no copy-in at all, final repair of F22); copy-out after the
+   last use as output.
+   seen = a use of d has already been found; later = an output use follows outside this item *)
+Fixpoint ins_item (d s0 : nat) (seen later : bool) (it : item) : list item * bool :=
   match it with
   | ILoop lid body =>
       let r := (fix go (l : list item) (seen : bool) : list item * bool :=
                   match l with
                   | [] => ([], seen)
                   | x :: r =>
-                      let x' := ins_item d s0 seen (has_out d r || later) (next_in d r nxt) x in
+                      let x' := ins_item d s0 seen (has_out d r || later) x in
                       let r' := go r (snd x') in
                       (fst x' ++ fst r', snd r')
                   end) body seen in
@@ -101,15 +83,15 @@ Fixpoint ins_item (d s0 : nat) (seen later nxt : bool) (it : item) : list item *
       | None => ([it], seen)
       | Some (i, o) =>
           ((if i && negb seen then [ICopy s0 d] else []) ++ [it] ++
-           (if o && (negb later || (negb (seen || i) && nxt)) then [ICopy d s0] else []), seen || i)
+           (if o && negb later then [ICopy d s0] else []), true)
       end
   end.
-Fixpoint ins_list (d s0 : nat) (seen later nxt : bool) (l : list item) : list item * bool :=
+Fixpoint ins_list (d s0 : nat) (seen later : bool) (l : list item) : list item * bool :=
   match l with
   | [] => ([], seen)
   | x :: r =>
-      let x' := ins_item d s0 seen (has_out d r || later) (next_in d r nxt) x in
-      let r' := ins_list d s0 (snd x') later nxt r in
+      let x' := ins_item d s0 seen (has_out d r || later) x in
+      let r' := ins_list d s0 (snd x') later r in
       (fst x' ++ fst r', snd r')
   end.
 
@@ -155,7 +137,7 @@ Definition realize_here (whole : list item) (d s td ts : nat) (rest : list item)
   else
     let src := chain_source 64 whole s ts in
     if (snd src =? td)%nat then map (subst_item d s) rest
-    else IAlloc d :: fst (ins_list d (fst src) false false false rest).
+    else IAlloc d :: fst (ins_list d (fst src) false false rest).
 
 Fixpoint rz_item (whole : list item) (c : nat) (it : item) : item :=
   match it with
